@@ -13,7 +13,7 @@ def _key(c, r):
     if "name" in a:
         if a["name"] == "config-adv":
             return "project:config-adv:%s" % json.dumps([c["cfg"].get("default"), c["cfg"].get("locales"), c["cfg"].get("namespaces")])
-        if a["name"] in ("range-adv", "key-adv", "plural-adv", "name-adv", "inherits-loop", "fmt-adv"):      # generated universes: tell the members apart by content
+        if a["name"] in ("range-adv", "key-adv", "plural-adv", "name-adv", "inherits-loop", "fmt-adv", "ns-adv"):      # generated universes: tell the members apart by content
             return "project:%s:%s" % (a["name"], json.dumps([c["cfg"].get("inherits"), [f[1]["e"] for f in c["files"]]], sort_keys=True)[:500])
         return "project:" + a["name"]
     if "s" in a:
